@@ -438,15 +438,14 @@ impl<
             Ok(self.storage.get().event.drain(&mut callback))
         };
 
+        // The state must be IDLE before the listener goes to sleep. If it were left in PENDING a
+        // notifier that has already fired its trigger (consumed by a previous wait) could
+        // afterwards switch it to NOTIFIED and all subsequent notifiers would skip the trigger
+        // while the listener sleeps.
         if mgmt
             .notification_state
-            .compare_exchange(
-                NOTIFICATION_STATE_NOTIFIED,
-                NOTIFICATION_STATE_IDLE,
-                Ordering::SeqCst,
-                Ordering::SeqCst,
-            )
-            .is_ok()
+            .swap(NOTIFICATION_STATE_IDLE, Ordering::SeqCst)
+            == NOTIFICATION_STATE_NOTIFIED
         {
             return drain();
         }
